@@ -59,6 +59,8 @@ type BlockchainRpcTxWatcher struct {
 
 	ctx context.Context
 	sync.Mutex
+	// csvMu serializes HandleCsvTx, see there.
+	csvMu sync.Mutex
 }
 
 func (s *BlockchainRpcTxWatcher) GetBlockHeight() (uint32, error) {
@@ -172,9 +174,23 @@ func (s *BlockchainRpcTxWatcher) StartBlockWatcher() error {
 
 // HandleCsvTx looks for transactions that have enough confirmations to be spend using the csv path
 func (s *BlockchainRpcTxWatcher) HandleCsvTx(blockheight uint64) error {
-	var toRemove []string
+	// The csv callback re-enters the swap service and takes the lock of the
+	// swap, while the swap (holding its lock) registers new watchers here. The
+	// watcher lock must therefore not be held while calling back. csvMu
+	// serializes the csv handling so that a swap is only reported once.
+	s.csvMu.Lock()
+	defer s.csvMu.Unlock()
+
 	s.Lock()
+	callback := s.csvPassedCallback
+	watchList := make(map[string]*SwapTxInfo, len(s.csvtxWatchList))
 	for k, v := range s.csvtxWatchList {
+		watchList[k] = v
+	}
+	s.Unlock()
+
+	var toRemove []string
+	for k, v := range watchList {
 		res, err := s.blockchain.GetTxOut(v.TxId, v.TxVout)
 		if err != nil {
 			log.Infof("watchlist fetchtx err: %v", err)
@@ -186,10 +202,10 @@ func (s *BlockchainRpcTxWatcher) HandleCsvTx(blockheight uint64) error {
 		if v.Csv > res.Confirmations {
 			continue
 		}
-		if s.csvPassedCallback == nil {
+		if callback == nil {
 			continue
 		}
-		err = s.csvPassedCallback(k)
+		err = callback(k)
 		if err != nil {
 			log.Infof("csv passed callback err: %v. swap id: %s, tx id: %s, starting block height: %d",
 				err, k, v.TxId, v.StartingBlockHeight)
@@ -197,7 +213,6 @@ func (s *BlockchainRpcTxWatcher) HandleCsvTx(blockheight uint64) error {
 		}
 		toRemove = append(toRemove, k)
 	}
-	s.Unlock()
 	s.TxClaimed(toRemove)
 	return nil
 }
@@ -232,29 +247,23 @@ func (l *BlockchainRpcTxWatcher) checkTxAboveCsvHight(txId string, vout, csv uin
 }
 
 func (l *BlockchainRpcTxWatcher) AddWaitForCsvTx(swapId, txId string, vout uint32, startingBlockheight, csv uint32, _ []byte) {
-	// Before we add the tx to the watcher we check if the tx is already
-	// above the csv limit.
-	above, err := l.checkTxAboveCsvHight(txId, vout, csv)
-	if err != nil {
-		log.Infof("[TxWatcher] checkTxAboveCsvHeight returned: %s", err.Error())
-	}
-	if above {
-		err = l.csvPassedCallback(swapId)
-		if err == nil {
-			log.Infof("Swap %s already past CSV limit", swapId)
-			return
-		}
-		log.Infof("csv passed callback error: %v", err)
-	}
-
 	l.Lock()
-	defer l.Unlock()
 	l.csvtxWatchList[swapId] = &SwapTxInfo{
 		TxId:                txId,
 		TxVout:              vout,
 		Csv:                 csv,
 		StartingBlockHeight: startingBlockheight,
 	}
+	l.Unlock()
+
+	// The tx might already be above the csv limit. Do not wait for the next
+	// block, but also do not call back from the goroutine of the caller: the
+	// caller is the swap itself and holds the lock that the callback needs.
+	go func() {
+		if err := l.HandleCsvTx(0); err != nil {
+			log.Infof("[TxWatcher] HandleCsvTx returned: %s", err.Error())
+		}
+	}()
 }
 
 func (l *BlockchainRpcTxWatcher) TxClaimed(swaps []string) {
